@@ -4,8 +4,8 @@ set -eu
 VERIF="$(cd "$(dirname "$0")" && pwd)"
 export CARGO_NET_OFFLINE=true
 cd "$VERIF/harness"
-cargo build --offline --profile release --bin vcheck
-cargo build --offline --profile checked --bin vcheck
+cargo build --offline --profile release --bin vcheck --target-dir "$VERIF/target"
+cargo build --offline --profile checked --bin vcheck --target-dir "$VERIF/target"
 cd /repo
 cargo build --offline --release --bin solstat --target-dir "$VERIF/target/solstat-bin"
 echo "setup ok"
